@@ -1,5 +1,6 @@
 import Txtpp.Lemmas.SinkFacts
 import Txtpp.Lemmas.ProjectFacts
+import Txtpp.Lemmas.TouchScope
 /-!
 # Property C10 — txtpp only ever writes its own outputs and temp targets
 -/
@@ -40,5 +41,37 @@ theorem write_frame (fs : FS) (p q : Path) (b : ByteArray) (h : q ≠ p) : (fs.w
 
 theorem remove_frame (fs : FS) (p q : Path) (h : q ≠ p) : (fs.remove p).file? q = fs.file? q :=
   file?_remove_other fs p q h
+
+/-- The write scope of one pass, stated over the source text: whatever the mode and the outcome,
+the directories are unchanged and every path the pass adds to the touch set is the source's output
+path or the resolution (from the source's directory) of the target of a `temp` block of the text it
+read. Together with `untouched_unchanged`: no other file changes. -/
+theorem pass_writes_only_output_and_temp_targets (cfg : Cfg) (fs : FS) (src : Path) (first : Bool) :
+    (runPass cfg fs src first).2.dirs = fs.dirs ∧
+    ∀ p ∈ (runPass cfg fs src first).2.touched, p ∈ fs.touched ∨
+      ∃ content, fs.file? src = some content ∧
+        (outputPath src = some p ∨ TempTarget cfg fs src.dropLast (decodeLines (byteLines content.toList)).1 p) :=
+  runPass_scope cfg fs src first
+
+/-- … and for the complete run: every touched path is the output path or a `temp` target of a source
+whose bytes are those of the initial file system, or of a source the run itself generated -/
+theorem run_writes_only_outputs_and_temp_targets (cfg : Cfg) (fs : FS) (inputs : List (List Char)) :
+    ∀ p ∈ (runProject cfg fs inputs).2.touched, p ∈ fs.touched ∨
+      ∃ src content,
+        (outputPath src = some p ∨ TempTarget cfg fs src.dropLast (decodeLines (byteLines content.toList)).1 p) ∧
+        (fs.file? src = some content ∨ src ∈ (runProject cfg fs inputs).2.touched) :=
+  (runProject_runScope cfg fs inputs).2.2
+
+/-- no run creates or removes a directory -/
+theorem directories_never_change (cfg : Cfg) (fs : FS) (inputs : List (List Char)) :
+    (runProject cfg fs inputs).2.dirs = fs.dirs := (runProject_runScope cfg fs inputs).2.1
+
+/-- the block structure used above is that of the grammar alone (no world, no line ending) -/
+theorem blocks_depend_on_text_only {W : Type} (Wd : World W) (mode : Mode) (le : List Char) (lines : List (List Char)) :
+    Refine.parse (txtppSem Wd mode le) none lines = srcBlocks mode lines := parse_eq_srcBlocks Wd mode le lines
+
+/-- non-vacuity: a two-line temp block is a block of its text, with its target as first argument -/
+example : srcBlocks .build [['-', 'T', 'X', 'T', 'P', 'P', '#', 't', 'e', 'm', 'p', ' ', 'x', '.', 't', 'x', 't'], ['-', 'b', 'o', 'd', 'y']] =
+    some [Refine.Block.dir ⟨[], ['-'], .temp, [['x', '.', 't', 'x', 't'], ['b', 'o', 'd', 'y']]⟩ true] := by rfl
 
 end C10
